@@ -160,15 +160,15 @@ EXTRA = {
         "(cutoff default nr*dr when None or zero) and SetFL_EAMTabulation.write with its step properties, regenerated from the source, write the model's whole file.",
  "C04": " C04_code_write_fs, C04_code_tabeam_fs, C04_code_tabeam_fs_missing, C04_code_tabulation_write_setfl/_tabeam: writeSetFLFinnisSinclair, writeTABEAMFinnisSinclair (A in element "
         "order, B in sorted order, dictionary look-up under 'dens A B'; a missing entry raises and nothing is written) and the two Finnis-Sinclair tabulation classes' write methods, "
-        "regenerated from the source, write the model's files.",
+        "regenerated from the source, write the model's files. C04_code_eam_builder_fs(_duplicate): EAM_Potential_Builder_FS as it runs on an object of the subclass, regenerated (override check, alias-tracked nested dictionaries), builds eamBuildFS for every set order.",
  "C05": " C05_code_tabulate/_embedding/_density_*/_pair_potentials/_except_density/_write/_tabulation_write: every function of _dlpoly_writeTABEAM.py and TABEAM_EAMTabulation.write "
         "regenerated from the source write the model's tabeam; that sorted(set(sorted pairs)) is the triangular enumeration of the sorted labels is proved.",
  "C11": " C11_code_pair_defaults/_eam_defaults/_dlpoly_cutoffs/_lammps_cutoffs: the four extract_cutoffs methods of the tabulation factories regenerated from the source fill in exactly "
-        "cutoff 10, nr 1001, cutoff_rho 100, nrho 1001 and refuse exactly the row counts the targets cannot lay out.",
+        "cutoff 10, nr 1001, cutoff_rho 100, nrho 1001 and refuse exactly the row counts the targets cannot lay out. C11_code_create_tabulation_pair/_dlpoly/_lammps/_eam: create_tabulation of the four factory classes, regenerated with class dispatch checked against the method resolution order, hands the constructor the section's grid, each value from its own key.",
  "C13": " C13_code_views: the four filtered properties of FilteredConfigParser regenerated from the source are filteredView.",
  "C14": " C14_code_apply_overrides: the override / removal / addition loops of _init_config_parser regenerated from the source, run on the model's parser operations, are applyOps for every "
         "file and operation lists; C14_code_parse_item_value/_novalue, C14_code_cli_operations, C14_cli_dict_model: the command-line layer (_create_override_tuple, _item_id, the ordered "
-        "dictionary of _make_config_parser) regenerated from the source is cliOverrides.",
+        "dictionary of _make_config_parser) regenerated from the source is cliOverrides. C14_empty_section_*/C14_code_empty_section: an item of a section without a name is rejected by model and regenerated code alike.",
  "C16": " C16_code_pair_species(_iff/_no_unpack), C16_split_spec, C16_code_signature_check: the pair-key parser and the signature name-clash loop regenerated from the source are splitKey / validSignature; "
         "C16_code_read_from_parser: an unknown target is a configuration error before any factory runs.",
  "C17": " C17_code_lammps/_dlpoly/_gulp/_setfl/_setfl_fs/_tabeam/_tabeam_fs/_tabulation_objects: for every whole-file writer and tabulation class on the text targets (ADP included) a "
